@@ -130,6 +130,7 @@ inductive POp where
   | idle (d : Nat)
   | wnew | winit (j : Nat) (ms : Int) (oneshot : Bool) | wen (j : Nat) | wdis (j : Nat) | wdel (j : Nat)
   | xslot | xl (w : Nat) | xlo (w : Nat)             -- the loop's exit timer: slot declaration, exitLoop(w) inside / outside a run
+  | wxslot | wxl (w : Int)                            -- wide cases: exit-timer slot, exitLoop(w) with any signed count
   | pnull (kind : String) | pdestroy                  -- TimerPool: empty std::function; ~TimerPool with pending timers (then a fresh pool)
 
 def msOk (w : String) : Option Nat := match w.toNat? with | some n => if n ≤ maxMs ∧ w.length ≤ 19 then some n else none | none => none
@@ -157,6 +158,10 @@ def parseOp (s : State) (slot : Bool) (ws : List String) : POp :=
   | ["idle", d] => match d.toNat? with | some n => if n ≤ clockMax ∧ d.length ≤ 19 then .idle n else .bad | none => .bad
   | ["idlex", d] => match d.toNat? with | some n => if n ≤ clockMax ∧ d.length ≤ 19 then .idle n else .bad | none => .bad   -- wait interrupted (EINTR): same to the timers
   | ["wnew"] => .wnew
+  | ["wxslot"] => .wxslot
+  | ["wxl", w] => match intOfString? w with
+      | some v => if w.length ≤ 20 ∧ -(maxMs : Int) ≤ v ∧ v ≤ maxMs then .wxl v else .bad
+      | none => .bad
   | ["winit", j, ms, m] => match j.toNat?, intOfString? ms with
       | some j, some v => if ms.length ≤ 20 ∧ -(maxMs : Int) ≤ v ∧ v ≤ maxMs ∧ (m == "o" || m == "p") ∧ !(v == 0 && m == "p") then .winit j v (m == "o") else .bad
       | _, _ => .bad
@@ -190,10 +195,11 @@ structure TAcc where
 
 def TAcc.bits (a : TAcc) (s : State) : String := bitsOf s (a.mode == 2) a.slot
 
-def xbits (x : Wide.XState) : String :=
+def xbits (x : Wide.XState) (slot : Bool := false) : String :=
   if x.nObjs = 0 then "-" else
   String.ofList ((List.range x.nObjs).map fun j =>
     let o := x.obj j
+    if slot && j == 0 then 's' else
     if !o.alive then 'x' else if o.inited && o.enabled then '1' else '0')
 
 def stepName : Step → String
@@ -386,34 +392,52 @@ def frontOf (s : State) : Option UInt64 :=
 /-- consume the `F j en=…` / `R -` lines of one pass of a wide case -/
 partial def wFirePass (a : TAcc) : TAcc :=
   if a.err.isSome then a else
-  match a.tl with
-  | l :: rest =>
-    match words l with
-    | ["F", j, en] =>
-      match j.toNat? with
-      | none => { a with err := some s!"op#{a.nops} unparsable callback line [{l}]" }
-      | some j =>
-        let now := a.x.passNow.getD a.x.now
-        match a.x.loop.heap.find? (fun t => t.owner == j), a.x.loop.heap with
-        | some t, f :: _ =>
-          if !Wide.due now t.expired then
-            { a with err := some s!"op#{a.nops} timer {j} fired EARLY: 64-bit deadline {t.expired} > now {now}" }
-          else if t.expired != f.expired then
-            { a with err := some s!"op#{a.nops} timer {j} (deadline {t.expired}) fired before an earlier deadline ({f.expired})" }
-          else
-            match xApply a.x (.fire t.tok) with
-            | none => { a with err := some s!"M: op#{a.nops} wide model served another record than {j}" }
-            | some x1 =>
-              let want := "en=" ++ xbits x1
-              if en != want then { a with err := some s!"op#{a.nops} at entry of callback {j}: impl=[{en}] model=[{want}]" } else
-              let tags := (if t.interval.toNat ≥ 9223372036854775808 then ["w-negative"] else []) ++
-                          (if t.interval.toNat ≥ 2147483648 ∧ t.interval.toNat < 9223372036854775808 then ["w-fired-2^31+"] else [])
-              let a0 := shadowStep { a with x := x1, tl := rest, tags := a.tags ++ ["w-fire"] ++ tags } (.fire t.tok)
-              let a1 := expectLine a0 "R -" s!"results of the calls made by callback {j}"
-              if a1.err.isSome then a1 else wFirePass a1
-        | _, _ => { a with err := some s!"op#{a.nops} callback on timer {j} which is not armed (disabled, destroyed, one-shot already fired, or never enabled)" }
-    | _ => a
-  | [] => a
+  let now := a.x.passNow.getD a.x.now
+  let normal : Unit → TAcc := fun _ =>
+    match a.tl with
+    | l :: rest =>
+      match words l with
+      | ["F", j, en] =>
+        match j.toNat? with
+        | none => { a with err := some s!"op#{a.nops} unparsable callback line [{l}]" }
+        | some j =>
+          match a.x.loop.heap.find? (fun t => t.owner == j), a.x.loop.heap with
+          | some t, f :: _ =>
+            if !Wide.due now t.expired then
+              { a with err := some s!"op#{a.nops} timer {j} fired EARLY: 64-bit deadline {t.expired} > now {now}" }
+            else if t.expired != f.expired then
+              { a with err := some s!"op#{a.nops} timer {j} (deadline {t.expired}) fired before an earlier deadline ({f.expired})" }
+            else
+              match xApply a.x (.fire t.tok) with
+              | none => { a with err := some s!"M: op#{a.nops} wide model served another record than {j}" }
+              | some x1 =>
+                let want := "en=" ++ xbits x1 a.slot
+                if en != want then { a with err := some s!"op#{a.nops} at entry of callback {j}: impl=[{en}] model=[{want}]" } else
+                let tags := (if t.interval.toNat ≥ 9223372036854775808 then ["w-negative"] else []) ++
+                            (if t.interval.toNat ≥ 2147483648 ∧ t.interval.toNat < 9223372036854775808 then ["w-fired-2^31+"] else [])
+                let a0 := shadowStep { a with x := x1, tl := rest, tags := a.tags ++ ["w-fire"] ++ tags } (.fire t.tok)
+                let a1 := expectLine a0 "R -" s!"results of the calls made by callback {j}"
+                if a1.err.isSome then a1 else wFirePass a1
+          | _, _ => { a with err := some s!"op#{a.nops} callback on timer {j} which is not armed (disabled, destroyed, one-shot already fired, or never enabled)" }
+      | _ => a
+    | [] => a
+  -- the exit timer's callback (`stopLoop()`) is internal to the loop, no `F` line: when its record is the heap front and due, and the
+  -- next line is not a callback on a record of the SAME deadline (the heap decides among equals), it fires silently
+  let nextDeadline : Option UInt64 := match a.tl with
+    | l :: _ => match words l with
+      | ["F", j, _] => (j.toNat?.bind fun j => a.x.loop.heap.find? (fun t => t.owner == j)).map (·.expired)
+      | _ => none
+    | [] => none
+  match (if a.slot then a.x.loop.heap.head? else none) with
+  | some f =>
+    if f.owner == 0 && Wide.due now f.expired && nextDeadline != some f.expired then
+      match xApply a.x (.fire f.tok) with
+      | some x1 =>
+        let tg := ["w-exit-fired"] ++ (if f.interval.toNat ≥ 9223372036854775808 then ["w-exit-negative-fired"] else [])
+        wFirePass (shadowStep { a with x := x1, stopReq := true, tags := a.tags ++ tg } (.fire f.tok))
+      | none => { a with err := some s!"M: op#{a.nops} wide model cannot serve the due exit timer" }
+    else normal ()
+  | none => normal ()
 
 /-- one pass of a wide case at the current clock: begin, the callbacks, then nothing may be due -/
 def wDrain (a : TAcc) : TAcc :=
@@ -431,7 +455,7 @@ def wDrain (a : TAcc) : TAcc :=
 def wPass (a : TAcc) (d : Nat) : TAcc :=
   let a0 := shadowStep { a with x := Wide.xstep wA wl a.x (.advance d) } (.advance d)
   let a1 := wDrain a0
-  if a1.err.isSome then a1 else expectLine a1 ("P ret=1 en=" ++ xbits a1.x) "after pass"
+  if a1.err.isSome then a1 else expectExit (expectLine a1 ("P ret=1 en=" ++ xbits a1.x a.slot) "after pass")
 
 def boundaryTags (ms : Nat) : List String :=
   (if ms ≥ 2147483646 ∧ ms ≤ 2147483650 then ["iv~2^31"] else []) ++ (if ms ≥ 4294967294 ∧ ms ≤ 4294967298 then ["iv~2^32"] else []) ++
@@ -466,14 +490,16 @@ def stepOp (a : TAcc) (line : String) : TAcc :=
   let isPool := match op with
     | .pnew _ _ _ => true | .pcancel _ => true | .pcleanup => true | .pat _ _ => true | .wall _ => true | .pnull _ => true | .pdestroy => true | _ => false
   let isPlain := match op with | .new _ => true | .api _ => true | .xslot => true | .xl _ => true | .xlo _ => true | _ => false
-  let isWide := match op with | .wnew => true | .winit _ _ _ => true | .wen _ => true | .wdis _ => true | .wdel _ => true | _ => false
+  let isWide := match op with | .wxslot => true | .wxl _ => true | .wnew => true | .winit _ _ _ => true | .wen _ => true | .wdis _ => true | .wdel _ => true | _ => false
   let op := if (isPool && a.mode != 0 && a.mode != 2) || (isPlain && a.mode != 0 && a.mode != 1) || (isWide && a.mode != 0 && a.mode != 3) then POp.bad else op
   -- wide ops address existing objects only
   let op := match op with
-    | .winit j _ _ => if j < a.x.nObjs then op else POp.bad
-    | .wen j => if j < a.x.nObjs then op else POp.bad
-    | .wdis j => if j < a.x.nObjs then op else POp.bad
-    | .wdel j => if j < a.x.nObjs then op else POp.bad
+    | .winit j _ _ => if j < a.x.nObjs && !(a.slot && j == 0) then op else POp.bad
+    | .wen j => if j < a.x.nObjs && !(a.slot && j == 0) then op else POp.bad
+    | .wdis j => if j < a.x.nObjs && !(a.slot && j == 0) then op else POp.bad
+    | .wdel j => if j < a.x.nObjs && !(a.slot && j == 0) then op else POp.bad
+    | .wxslot => if a.x.nObjs == 0 then op else POp.bad
+    | .wxl _ => if a.slot then op else POp.bad
     | _ => op
   -- the clock stays below 7·10^12 ms (int64 nanoseconds)
   let clk := a.x.now.toNat
@@ -543,31 +569,49 @@ def stepOp (a : TAcc) (line : String) : TAcc :=
       let tg := match act_ with | .init _ ms _ => boundaryTags ms | _ => []
       let a1 := sync { a with s := s', tags := a.tags ++ tg } [.api act_]
       expectLine a1 ("P ret=" ++ boolStr r ++ " en=" ++ a1.bits s') "api result"
+  | .wxslot =>
+      -- wide case with the loop's exit timer: object 0 is the slot (not observable, not addressable)
+      let a1 := shadowStep { a with x := Wide.xNewObj a.x [], slot := true, tags := a.tags ++ ["wide", "exit-slot"] } (.newObj [])
+      let a2 := wDrain a1
+      expectLine a2 ("P ret=1 en=" ++ xbits a1.x true) "wxslot"
+  | .wxl w =>
+      -- loop->exitLoop(milliseconds(w)) with any signed count, from a deferred function of the running loop
+      let (x', _stop) := Wide.xExitLoop wA a.x 0 (Int64.ofInt w)
+      if w == 0 then
+        let a1 := shadowStep { a with x := x', stopReq := true, tags := a.tags ++ ["w-exitLoop", "exitLoop-0"] } (.api (.disable 0))
+        expectExit (expectLine a1 ("P ret=1 en=" ++ xbits x' true) "exitLoop(0)")
+      else
+        let neverDue := w < 0 ∧ a.x.now.toNat < (-w).toNat
+        let a0 := { a with x := x', tags := a.tags ++ ["w-exitLoop"] ++ (if w < 0 then ["w-exit-negative"] else boundaryTags w.toNat) ++ (if neverDue then ["w-exit-negative-wrapped"] else []) }
+        -- a negative count is outside the abstract model: from here on only the wide machine runs
+        let a1 := if w < 0 then { a0 with shadow := false, tags := a0.tags ++ ["shadow-off"] }
+                  else shadowStep (shadowStep a0 (.api (.init 0 w.toNat true))) (.api (.enable 0))
+        expectExit (expectLine (wDrain a1) ("P ret=1 en=" ++ xbits x' true) "exitLoop")
   | .wnew =>
       let a1 := shadowStep { a with x := Wide.xNewObj a.x [], tags := a.tags ++ ["wide"] } (.newObj [])
       let a2 := wDrain a1
-      expectLine a2 ("P ret=1 en=" ++ xbits a1.x) "wnew"
+      expectExit (expectLine a2 ("P ret=1 en=" ++ xbits a1.x a.slot) "wnew")
   | .winit j ms o =>
       let (x', r) := Wide.xInit wA a.x j (Int64.ofInt ms) o
       let tg := if ms < 0 then ["w-init-negative"] else if ms == 0 then ["w-init-zero"] else boundaryTags ms.toNat
       let a0 := { a with x := x', tags := a.tags ++ tg }
       -- a negative count is outside the abstract model: from here on only the wide machine runs
       let a1 := if ms < 0 then { a0 with shadow := false, tags := a0.tags ++ ["shadow-off"] } else shadowStep a0 (.api (.init j ms.toNat o))
-      expectLine (wDrain a1) ("P ret=" ++ boolStr r ++ " en=" ++ xbits x') "winit"
+      expectExit (expectLine (wDrain a1) ("P ret=" ++ boolStr r ++ " en=" ++ xbits x' a.slot) "winit")
   | .wen j =>
       let (x', r) := Wide.xEnable wA a.x j
       let ok := Tbox.C02.Heap.isHeapB Wide.key x'.loop.heap
       if !ok then { a with err := some s!"M: op#{a.nops} wide model: vector not heap-ordered" } else
       let a1 := shadowStep { a with x := x' } (.api (.enable j))
-      expectLine (wDrain a1) ("P ret=" ++ boolStr r ++ " en=" ++ xbits x') "wen"
+      expectExit (expectLine (wDrain a1) ("P ret=" ++ boolStr r ++ " en=" ++ xbits x' a.slot) "wen")
   | .wdis j =>
       let (x', r) := Wide.xDisable wA a.x j
       let a1 := shadowStep { a with x := x' } (.api (.disable j))
-      expectLine (wDrain a1) ("P ret=" ++ boolStr r ++ " en=" ++ xbits x') "wdis"
+      expectExit (expectLine (wDrain a1) ("P ret=" ++ boolStr r ++ " en=" ++ xbits x' a.slot) "wdis")
   | .wdel j =>
       let (x', r) := Wide.xDestroy wA a.x j
       let a1 := shadowStep { a with x := x' } (.api (.destroy j))
-      expectLine (wDrain a1) ("P ret=" ++ boolStr r ++ " en=" ++ xbits x') "wdel"
+      expectExit (expectLine (wDrain a1) ("P ret=" ++ boolStr r ++ " en=" ++ xbits x' a.slot) "wdel")
   | .idle d =>
       -- the loop goes to sleep (no next-function pending): the wait it asks for, then as `adv d`
       let (front, now) := if a.mode == 3 then (a.x.loop.heap.head?.map (·.expired), a.x.now)
